@@ -108,7 +108,7 @@ func (h *Host) HostCall(pc ProgramCounter, instrCount uint64) (psi_result Psi_H_
 
 		// reason.Reason == HOST_CALL
 		var input OmegaInput
-		input.Operation = OperationType(exitReason.GetHostCallID())
+		input.Operation = OperationType(exitReason.GetHostCallIndex())
 		input.VM = &VMState{
 			Registers: &h.Interpreter.Registers,
 			Memory:    h.Interpreter.Memory,
@@ -126,8 +126,12 @@ func (h *Host) HostCall(pc ProgramCounter, instrCount uint64) (psi_result Psi_H_
 			}
 		}
 		omegaResult := omega(input)
+		opName := "unknown"
+		if input.Operation >= 0 && int(input.Operation) < len(hostCallName) {
+			opName = hostCallName[input.Operation]
+		}
 		pvmLogger.Debugf("%s host-call return: %d, gas : %d\nRegisters: %v\n",
-			hostCallName[input.Operation], omegaResult.ExitReason.GetReasonType(), h.Interpreter.Gas, h.Interpreter.Registers)
+			opName, omegaResult.ExitReason.GetReasonType(), h.Interpreter.Gas, h.Interpreter.Registers)
 
 		switch omegaResult.ExitReason {
 		case ExitContinue:
